@@ -219,6 +219,17 @@ CHECKS = {
             'parsing, and standard tracebacks have type and message outside the raw block.',
             'Trusted: html.parser; the definition of "standard traceback"; lone surrogates excluded.',
             'DESIGN.md section 5, C20'),
+    'C18': ('E1-product-enumerator+E4-fault-enumerator',
+            'bounded-exhaustive product of host applications x mounts x views on the real MetaApplication; sentinel '
+            'search; injected section failures at every peripheral x phase x exception type',
+            'Resource-name subsets (names with secret as prefix/infix/suffix, a long name, non-secret names) x six value '
+            'kinds (str, bytes, int, nested containers, object whose repr holds the secret, long string) x middleware '
+            'sets (none, SignedCookie with a known key, custom middleware + cookie) x four mounts incl. two levels of '
+            'embedding x HTML/JSON view; each page must be 200, hide secret-named values and the cookie key, show '
+            'the redaction marker and the other values; each of 9 peripherals made to raise each of 9 exception types '
+            'in get_context / render, and resources whose repr raises: page still 200 with the failure reported inline.',
+            'Trusted: alphanumeric sentinels (raw, HTML-, JSON-, repr-escaped forms coincide).',
+            'DESIGN.md section 5, C18'),
 }
 
 NOT_YET = 'check not built yet in this revision of /verif (planned: bounded exhaustive exploration, see DESIGN.md section 5)'
